@@ -186,7 +186,12 @@ func genC16(d *RunDesc, tier string) {
 	shuffle(sc, prio)
 	d.Sched.Prio = prio
 	d.Sched.Seed = sc.u64()
-	switch sc.intn(10) {
+	switch sc.intn(13) {
+	case 10, 11, 12:
+		// pre-empt mostly where it matters: at statements that touch shared state
+		d.Sched.Policy = simrt.PolicyBernoulli
+		d.Sched.P = []float64{0.002, 0.01, 0.05}[sc.intn(3)]
+		d.Sched.HotP = []float64{0.3, 0.6, 1}[sc.intn(3)]
 	case 0:
 		d.Sched.Policy = simrt.PolicyNone
 	case 1, 2:
